@@ -160,6 +160,22 @@ func (e *Enc) call(f *frame, c *ssa.CallCommon, instr *ssa.Call, pos token.Pos) 
 					e.callAssert(f, disp, n, ca, env, pos)
 				}
 			}
+			r := e.builtin(f, fv.Name(), c, args, pos)
+			for _, ca := range f.con.CallAsserts {
+				if ca.Callee == disp && ca.N == n && ca.After {
+					env := e.cellEnv(f, pos, e.cur)
+					if sig := c.Signature(); r != nil && sig != nil && sig.Results().Len() > 0 {
+						env.names["ret0"] = TV{V: r, Ty: sig.Results().At(0).Type()}
+					}
+					tv := e.evalClauseVal(env, ca.Clause)
+					v, _ := e.materialize(env, tv, types.Typ[types.Uint64])
+					e.setVar("G|"+ca.Var, e.scalar(v, SBV64))
+					if e.dry == 0 {
+						f.assertsSeen[fmt.Sprintf("%s#%d", ca.Callee, ca.N)] = true
+					}
+				}
+			}
+			return r
 		}
 		return e.builtin(f, fv.Name(), c, args, pos)
 	case *ssa.Function:
